@@ -213,23 +213,26 @@ def wide(kind, n):
 
 # kind -> n: each is 4-16 KB of source; the limits below are per input, on the debug build of the real binary
 WIDE = {"ifs": 400, "elseifs": 400, "loops": 120, "sigchain": 120, "sum": 2000, "varchain": 800, "reassign": 600, "args": 1000, "templates": 300, "array": 1500}
-WIDE_SECONDS = 40
+WIDE_SECONDS = 40               # CPU seconds on the machine the sizes were chosen on; scaled by the speed measured at run time
+WIDE_REFERENCE = ("varchain", 800, 5.7)   # an input whose cost the three repairs did not change, and its CPU seconds on that machine
 WIDE_MEMORY = 3 * 1024 ** 3      # address space, 1 GiB of which is the stack the tool reserves for its analysis thread
 
 
-def run_wide(cli, path):
+def run_wide(cli, path, seconds=None):
     """the real binary on one wide input, alone in its process, within the limits on CPU time and address space (CPU time, so that a
     loaded machine is not mistaken for a slow tool; the wall clock only bounds a process that sleeps); returns (None or what went
     wrong, CPU seconds)"""
+    seconds = int(seconds or WIDE_SECONDS)
+
     def lim():
         import resource
         resource.setrlimit(resource.RLIMIT_AS, (WIDE_MEMORY, WIDE_MEMORY))
-        resource.setrlimit(resource.RLIMIT_CPU, (WIDE_SECONDS, WIDE_SECONDS + 5))
+        resource.setrlimit(resource.RLIMIT_CPU, (seconds, seconds + 5))
     import tempfile
     with tempfile.TemporaryFile() as fo, tempfile.TemporaryFile() as fe:
         p = subprocess.Popen([cli, path], stdout=fo, stderr=fe, preexec_fn=lim)
         pid = p.pid
-        timer = threading.Timer(8 * WIDE_SECONDS, lambda: os.kill(pid, signal.SIGKILL))
+        timer = threading.Timer(8 * seconds, lambda: os.kill(pid, signal.SIGKILL))
         timer.start()
         try:
             _, status, ru = os.wait4(pid, 0)
@@ -242,7 +245,7 @@ def run_wide(cli, path):
         out = fo.read().decode("utf-8", "replace")
         err = fe.read()
     if rc in (-signal.SIGXCPU, -signal.SIGKILL):
-        return "no result within %d s of CPU time" % WIDE_SECONDS, WIDE_SECONDS
+        return "no result within %d s of CPU time (%d s scaled by the speed of this machine)" % (seconds, WIDE_SECONDS), seconds
     if rc not in (0, 1) or not re.search(r"^circomspect: .*(issue|issues) found\.$", out, re.M):
         return "exit status %s under a %d MB address-space limit, stderr: %s" % (rc, WIDE_MEMORY >> 20, err.decode("utf-8", "replace")[-200:]), cpu or 0
     return None, cpu or 0
@@ -422,7 +425,13 @@ def run(ctx):
         for kind, nmax in WIDE.items():
             for nn in ([nmax] if ctx.tier == "quick" else [nmax // 4, nmax // 2, nmax]):
                 wjobs.append((kind, nn, wd.write("w_%s_%d/main.circom" % (kind, nn), wide(kind, nn).encode())))
-        wres = rl.pmap(lambda j: run_wide(cli, j[2]), wjobs, workers=4)
+        # the limit is scaled by the speed of this machine, measured on the reference input (never below the nominal limit)
+        rk, rn, rsec = WIDE_REFERENCE
+        _, ref_cpu = run_wide(cli, wd.write("w_ref/main.circom", wide(rk, rn).encode()), seconds=10 * rsec)
+        wide_seconds = max(WIDE_SECONDS, int(WIDE_SECONDS * ref_cpu / rsec))
+        stats["wide: reference CPU seconds"] = round(ref_cpu, 1)
+        stats["wide: CPU limit used"] = wide_seconds
+        wres = rl.pmap(lambda j: run_wide(cli, j[2], seconds=wide_seconds), wjobs, workers=4)
         for (kind, nn, path), (bad, dt) in zip(wjobs, wres):
             if False and bad and bad.startswith("no result"):
                 bad, dt = run_wide(cli, path)          # once more with the machine to itself, so that load is not mistaken for a hang
@@ -431,7 +440,7 @@ def run(ctx):
             if bad:
                 ctx.violation("totality wide-%s %s" % (kind, re.sub(r"\d+", "N", bad)[:60]),
                               {"stage": "wide input: time and memory", "kind": "wide-%s-%d" % (kind, nn), "bytes": os.path.getsize(path), "outcome": bad,
-                               "limits": {"seconds": WIDE_SECONDS, "address_space_mb": WIDE_MEMORY >> 20}, "input_utf8": open(path).read()[:3000],
+                               "limits": {"cpu_seconds": wide_seconds, "nominal": WIDE_SECONDS, "address_space_mb": WIDE_MEMORY >> 20}, "input_utf8": open(path).read()[:3000],
                                "generator": "checks.c01.wide(%r, %d)" % (kind, nn), "broken": None})
         # group by failure site, shrink one representative of each
         groups = collections.OrderedDict()
@@ -471,7 +480,7 @@ def run(ctx):
     cov["distribution"] = dict(stats)
     cov["samples"] = samples or [{"ledger": {k: v for k, v in ledger.items() if k != "problems"}}]
     ctx.assumptions += ["inputs of modest size: nesting depth <= %d, width (consecutive statements / terms / signals / arguments) <= %d, file size <= 20 KB; "
-                        "a wide input must finish within %d s of CPU time in at most %d MB of address space on the debug build" % (MODEST_DEPTH, max(WIDE.values()), WIDE_SECONDS, WIDE_MEMORY >> 20),
+                        "a wide input must finish within %d s of CPU time (scaled up on a slower machine by the CPU time of a reference input) in at most %d MB of address space on the debug build" % (MODEST_DEPTH, max(WIDE.values()), WIDE_SECONDS, WIDE_MEMORY >> 20),
                         "deeper inputs (tens of thousands of nested blocks overflow the 1 GiB stack of the analysis thread: audits/C01/f4) are not modest",
                         "panic sites with the dispositions `environment` (stdout / file-system failures) and `trusted` (third-party contracts) are not exercised"]
 
